@@ -1,31 +1,36 @@
 """Configuration of ./check for property C09 (loaded by tools/props.py)."""
 
-PROP = {'engine': 'ht',
- 'lean_props': ['MuscleModel.Props.C09'],
+PROP = {'assumptions': ['comparison functors of the ordered kinds are strict weak orders (explicit hypothesis StrictWeak)',
+                 'tableSize < 2^32 (uint32 field; EnsureSize refuses MUSCLE_NO_LIMIT)',
+                 'traversal theorems: plain Hashtable, mutations during the traversal are puts and removals, no key is re-inserted after its removal',
+                 'single-threaded use (the iterator registration of a second thread is out of scope)'],
+ 'engine': 'ht',
  'harnesses': [{'name': 'ht', 'sources': ['harness/ht.cpp']}],
+ 'lean_props': ['MuscleModel.Props.C09'],
+ 'rule': 'random op sequences over two tables of one kind (Hashtable / OrderedKeysHashtable / OrderedValuesHashtable) with uint32 keys under a colliding hash '
+         'functor or String keys, int values, four live forward/backward iterators, populations walked across 7/8, 255/256 (and 65535/65536 in the thorough '
+         'tier), alias mode (arguments that are references into the table); every op executed on the real class and on the Lean model, results (status, '
+         'values, iterator positions, full dumps) must be identical; direct oracle = std::list reference + iterator completeness/no-duplicate/no-dangling '
+         'bookkeeping; directed scenarios: capacities of exactly 256 / 65536 slots (EnsureSize, preallocating constructor, ShrinkToFit at exactly that '
+         'population, copies; keys hashing to the last slot), several iterators parked on one entry across reallocation, re-positioning of updated entries in '
+         'sorted tables, auto-sort toggling, moved-from / zero-capacity tables and the whole cross-table family (SwapContents, move construction/assignment, '
+         'CopyFrom, Put(table), MoveToTable, CopyToTable, SwapWithTable, Remove(table), Intersect, IsEqualTo); the three findings C09-R1..R3 are repaired: the '
+         'harness still probes the code for the old behaviours and passes what it sees on the init line (a switch of the model), so a tree that shows one '
+         'again is compared as such and the regression cases corpus/C09/ht-regress-R*.ops report it; on the repaired tree their triggers are part of the '
+         'random stream; distinct = distinct case bodies',
  'timeout': 900,
  'trusted_base': ['hand-written Lean model of Hashtable/OrderedKeysHashtable/OrderedValuesHashtable as an association list in iteration order plus the '
                   'registry of live iterators (lean/MuscleModel/Containers/OMap.lean, HTab.lean); bucket chains, hash functions, slot arrays and capacities '
                   'are abstracted to find-by-key',
                   'the capacity -> index-width function and the default capacity are regenerated from the compiled headers on every run '
                   '(tools/extract_consts.cpp measures GetTotalDataSize() per capacity)',
-                  'SortByKey/SortByValue/Sort are modelled as a stable sort (core List.mergeSort) rather than by transcribing the linked-list merge sort'],
- 'assumptions': ['comparison functors of the ordered kinds are strict weak orders (explicit hypothesis StrictWeak)',
-                 'tableSize < 2^32 (uint32 field; EnsureSize refuses MUSCLE_NO_LIMIT)',
-                 'traversal theorems: plain Hashtable, mutations during the traversal are puts and removals, no key is re-inserted after its removal',
-                 'single-threaded use (the iterator registration of a second thread is out of scope)'],
- 'rule': 'random op sequences over two tables of one kind (Hashtable / OrderedKeysHashtable / OrderedValuesHashtable) with uint32 keys under a colliding hash '
-         'functor or String keys, int values, four live forward/backward iterators, populations walked across 7/8, 255/256 (and 65535/65536 in the thorough '
-         'tier), alias mode (arguments that are references into the table); every op executed on the real class and on the Lean model, results (status, '
-         'values, iterator positions, full dumps) must be identical; direct oracle = std::list reference + iterator completeness/no-duplicate/no-dangling '
-         'bookkeeping; directed scenarios: capacities of exactly 256 / 65536 slots (EnsureSize, preallocating constructor, ShrinkToFit at exactly that population, copies; keys hashing '
-         'to the last slot), several iterators parked on one entry across reallocation, re-positioning of updated entries in sorted tables, auto-sort toggling, '
-         'moved-from / zero-capacity tables and the whole cross-table family (SwapContents, move construction/assignment, CopyFrom, Put(table), MoveToTable, '
-         'CopyToTable, SwapWithTable, Remove(table), Intersect, IsEqualTo); three open findings (C09-R1..R3) are behaviour switches of the model probed from the '
-         'real code and passed on the init line, their triggers stay out of the random stream while open and run from corpus/C09/ht-known-*.ops; '
-         'distinct = distinct case bodies'}
+                  'SortByKey/SortByValue/Sort are modelled as a stable sort (core List.mergeSort) rather than by transcribing the linked-list merge sort']}
 
 TEXT = {'design_ref': 'DESIGN.md section 4, C09',
+ 'note': 'Bucket chains/hash functions/slot arrays are abstracted to find-by-key (memory safety of the slot layer is watched by ASan only, incl. the alias '
+         'mode that found F23); sort is modelled as a stable sort; comparison functors assumed strict weak orders; traversal theorems are for the plain '
+         'Hashtable under puts/removals without re-insertion of a removed key.  Trusted: Lean kernel, the statement file, the correspondence harness '
+         '(sampling), the constants extractor.  A defect the generators never reach and the model does not share stays invisible.',
  'technique': 'Lean 4 theorems (map laws, order laws of every operation, auto-sort invariant, iterator non-dangling invariant over all reachable states, '
               'traversal completeness/no-duplicates under mutation, index-width kernel) over a hand-written ordered-map + iterator-registry model of Hashtable '
               '+ differential correspondence of model and real code on random API op sequences with live iterators',
@@ -36,8 +41,4 @@ TEXT = {'design_ref': 'DESIGN.md section 4, C09',
          'cleared/destroyed table detaches its iterators; a traversal under puts and removals visits every key that was present throughout and no key twice; '
          'every slot index fits the index width chosen for the capacity and differs from its sentinel (kernel regenerated from the compiled headers).  The '
          'model is tied to the C++ code by running both on the same random op sequences (all results, iterator positions and dumps must be identical) and by a '
-         'direct oracle (std::list reference, iterator bookkeeping, ASan/UBSan) on the real classes.',
- 'note': 'Bucket chains/hash functions/slot arrays are abstracted to find-by-key (memory safety of the slot layer is watched by ASan only, incl. the alias '
-         'mode that found F23); sort is modelled as a stable sort; comparison functors assumed strict weak orders; traversal theorems are for the plain '
-         'Hashtable under puts/removals without re-insertion of a removed key.  Trusted: Lean kernel, the statement file, the correspondence harness '
-         '(sampling), the constants extractor.  A defect the generators never reach and the model does not share stays invisible.'}
+         'direct oracle (std::list reference, iterator bookkeeping, ASan/UBSan) on the real classes.'}
